@@ -5,7 +5,7 @@ Nothing in /repo is touched; the overlay only replaces/adds files of GOROOT/src/
 import json, os, re, sys
 GOROOT = os.environ.get("VERIF_GOROOT", "/opt/veriftools/go1.26.8")
 SRC = os.path.join(GOROOT, "src", "os")
-out = sys.argv[1]
+out = os.path.abspath(sys.argv[1])
 os.makedirs(out, exist_ok=True)
 FUNCS = {  # file -> top-level functions to rename
     "file.go": ["OpenFile", "Mkdir", "Rename", "Chmod"],
